@@ -221,6 +221,7 @@ pub fn def() -> PropertyDef {
             Box::new(PSub { name: "progressive", quick: 30000, thorough: 800000, strat, eval }),
             Box::new(PSub { name: "fragmented", quick: 20000, thorough: 600000, strat: strat_frag, eval: eval_frag }),
             Box::new(ESub { name: "long_sequences", run: run_long_frag, replay: replay_long_frag }),
+            Box::new(LSub { name: "long_recordings", cases: long_cases_all, eval: eval, note: LONG_NOTE }),
         ],
     }
 }
